@@ -40,11 +40,12 @@ def run(leg):
 
 
 legs = [l for l in LEGS if not only or l[0] in only]
-# internal/build links LLVM (tens of seconds): overlap it with the light legs; the two packages called `env`
-# share the name of the generated helper file, so the light legs stay sequential.
-heavy = [l for l in legs if l[0] == "xflag"]
-light = [l for l in legs if l[0] != "xflag"]
-results = core.pmap(lambda grp: [run(l) for l in grp], [g for g in (heavy, light) if g], workers=2)
+# internal/build links LLVM (tens of seconds): overlap it with the light legs, which run as two sequential
+# groups (the two packages called `env` share the name of the generated helper file and stay in one group).
+groups = [[l for l in legs if l[0] == "xflag"],
+          [l for l in legs if l[0] in ("shellparse", "safesplit", "buildtags")],
+          [l for l in legs if l[0] in ("ienv", "xenv", "clang")]]
+results = core.pmap(lambda grp: [run(l) for l in grp], [g for g in groups if g], workers=3)
 for grp in results:
     for leg, (rc, out, rep, races, _) in grp:
         inpkg.absorb(chk, rep, out, rc, leg[0])
